@@ -197,7 +197,7 @@ func allocBoundFor(n int) uint64 {
 // ---------- the session property ----------
 
 func TestRLPXSession(t *testing.T) {
-	ev.Check(t, ev.N(500, 60_000), func(t *rapid.T) {
+	ev.Check(t, ev.N(500, 42_000), func(t *rapid.T) {
 		fail := failer(t)
 		ka, kb := drawKey(t, "ka"), drawKey(t, "kb")
 		if idOf(ka) == idOf(kb) {
@@ -604,7 +604,7 @@ func drawHandshakeBytes(t *rapid.T, victim *btcec.PrivateKey, plainSize int) ([]
 }
 
 func TestRLPXHandshakeBytes(t *testing.T) {
-	ev.Check(t, ev.N(1500, 300_000), func(t *rapid.T) {
+	ev.Check(t, ev.N(1500, 240_000), func(t *rapid.T) {
 		fail := failer(t)
 		victim := drawKey(t, "victim")
 		toReceiver := rapid.Bool().Draw(t, "toReceiver")
